@@ -28,12 +28,26 @@ of a validation function, which is read only):
            | del self._gate_to_users[k] / self._gates[k] / self._blocks[k]       (Err PyKeyError)
            | self.<mutator>(args) | <check function>(args) | <local closure>(args)
            | def <closure>(params): ...   (captures self only)  | logger.<level>(...) (no effect on the state)
+           | self._inputs[i] / self._outputs[i] = e            (i a non-negative index; Err PyIndexError)
+           | <ref> = self._gate_to_users[k] ... <ref>[i] = e    a live reference to one users list: the item store
+                                                                updates the state (k may not be rebound in between)
+           | self._gate_to_users[a] = self._gate_to_users[b]  immediately followed by  del self._gate_to_users[b]
+                                                                (the list changes owner; no alias survives)
+           | for i, x in enumerate(L): if <cond over x>: L[i] = <e>     (L = a Block list / self._inputs / self._outputs /
+                                                                a mutable local)  ->  L := map (fun x => if cond then e else x) L
+                                                                (each store hits the position just yielded)
+           | for b in self.blocks.values(): b.<Block mutator>(args)    ->  every value of the dict updated (mapM)
   <expr> ::= names, (), (a,), [a, ...], list(), set(), list(x), set(x), len(x), x.values(),
+             l[i] (i: int -> Python indexing incl. negative, Err PyIndexError), l.index(x) (Err PyValueError),
+             [e for i, x in enumerate(xs) if c],
              self._field / self.property (trivial getters are verified), Gate / Block getters,
              gate.<TYPE>, d[k] (Err PyKeyError), `in` / `not in`, == != < <= > >=, not / and / or
              (short circuit kept when the right operand may raise), [e for x in xs if c],
              tuple(e for x in xs), a if c else b, gate.Gate(l, t[, ops][, **kwargs]), Block(name=, owner=self, ...),
              calls of translated pure methods / functions.
+
+Python ints: a parameter annotated `int` is a Z; len(...) and index() results are nat; a comparison between the two
+is made in Z.  Methods of Block (state type `block`) are emitted as gen_Block_<name>.
 
 Representation: a Python Gate is a model `gate` (type, operands) plus, separately, the label it is known
 to carry (the dict key): `.label` is resolved statically and a store `self._gates[k] = g` is accepted
@@ -69,6 +83,9 @@ COVERED = [
     ('circuit', 'order_inputs'), ('circuit', 'order_outputs'), ('circuit', 'replace_inputs'),
     ('circuit', 'delete_block'), ('circuit', 'make_block'), ('circuit', '_remove_gate'), ('circuit', 'remove_gate'),
     ('circuit', '_remove_block'), ('circuit', 'remove_block'),
+    ('circuit', 'input_at_index'), ('circuit', 'output_at_index'),
+    ('circuit', 'index_of_input'), ('circuit', 'all_indexes_of_output'),
+    ('block', '_rename_gate'), ('circuit', 'rename_gate'),
 ]
 
 COQ_TY = {
@@ -77,7 +94,7 @@ COQ_TY = {
     'optlabels': 'option (list label)', 'optlabelset': 'option (list label)',
     'gatepairs': 'list (label * gate)', 'blockpairs': 'list (label * block)',
     'gatedict': 'dict gate', 'usersdict': 'dict (list label)', 'blockdict': 'dict block',
-    'circuit': 'circuit', 'unit': 'unit',
+    'circuit': 'circuit', 'unit': 'unit', 'int': 'Z', 'nats': 'list nat',
 }
 # attribute of a Circuit -> (projection, setter, type, state component)
 FIELDS = {
@@ -107,6 +124,23 @@ Definition ddel_res {V} (d : dict V) (k : label) : res (dict V) :=
   if dmem d k then Ok (ddel d k) else Err PyKeyError.                          (* del d[k] *)
 Definition list_remove (x : label) (l : list label) : res (list label) :=
   if memb x l then Ok (remove1 x l) else Err PyValueError.                     (* l.remove(x) *)
+(* l[i] for a Python int: negative indices count from the end *)
+Definition list_index (l : list label) (i : Z) : res label :=
+  let n := Z.of_nat (length l) in
+  if (i <? - n)%Z || (n <=? i)%Z then Err PyIndexError
+  else nth_res l (Z.to_nat (if (i <? 0)%Z then (i + n)%Z else i)).
+Fixpoint list_index_of (x : label) (l : list label) : res nat :=               (* l.index(x) *)
+  match l with
+  | [] => Err PyValueError
+  | y :: ys => if leqb y x then Ok O else do i <- list_index_of x ys; Ok (S i)
+  end.
+Fixpoint list_set (l : list label) (i : nat) (v : label) : res (list label) :=  (* l[i] = v, 0 <= i *)
+  match l, i with
+  | [], _ => Err PyIndexError
+  | _ :: ys, O => Ok (v :: ys)
+  | y :: ys, S i' => do ys' <- list_set ys i' v; Ok (y :: ys')
+  end.
+Definition enumerate (l : list label) : list (nat * label) := combine (seq 0 (length l)) l.
 '''
 
 
@@ -161,10 +195,12 @@ class Val:
 
 
 class Var:
-    """a Python local.  kind: self | circ (read-only circuit) | param | local | mutlocal | none | fn"""
+    """a Python local.  kind: self | bself (a Block as the state) | circ (read-only circuit) | param | local |
+    mutlocal | ref | none | fn"""
     def __init__(self, code, ty, kind, alias=frozenset(), label=None, fn=None):
         self.code, self.ty, self.kind, self.alias, self.label, self.fn = code, ty, kind, frozenset(alias), label, fn
         self.stale = False
+        self.ref = None         # kind 'ref': (field attr, key name, key Var): a live reference to self._field[key]
 
 
 class Fn:
@@ -183,10 +219,11 @@ class Fn:
         self.text = ''
         self.ret_fresh = False
         self.closures = []
+        self.state_ty = 'circuit'
 
     def result_coq_ty(self):
         if self.mutates:
-            base = 'circuit' if self.ret_ty == 'unit' else f'(circuit * {COQ_TY[self.ret_ty]})'
+            base = self.state_ty if self.ret_ty == 'unit' else f'({self.state_ty} * {COQ_TY[self.ret_ty]})'
         else:
             base = COQ_TY[self.ret_ty]
         if self.monadic:
@@ -210,6 +247,7 @@ class Unit:
             if c not in self.classes:
                 raise TranslatorError(f'class {c} not found')
         self.circuit_methods = self.methods_of('Circuit')
+        self.block_methods = self.methods_of('Block')
         self.funcs = {'validation': top_level_functions(self.mods['validation']),
                       'utils': top_level_functions(self.mods['utils'])}
         self.done = {}      # (modkey, name) -> Fn
@@ -337,11 +375,16 @@ class Unit:
             return self.done[key]
         if key in self.in_progress:
             fail(node, f'recursion through {name}')
-        src = self.circuit_methods.get(name) if modkey == 'circuit' else self.funcs[modkey].get(name)
+        if modkey == 'circuit':
+            src = self.circuit_methods.get(name)
+        elif modkey == 'block':
+            src = self.block_methods.get(name)
+        else:
+            src = self.funcs[modkey].get(name)
         if src is None:
             raise TranslatorError(f'{modkey}: {name} not found (or defined twice)')
         self.in_progress.add(key)
-        fn = FnTr(self, modkey, src, 'gen_' + name).translate()
+        fn = FnTr(self, modkey, src, ('gen_Block_' if modkey == 'block' else 'gen_') + name).translate()
         self.in_progress.discard(key)
         self.done[key] = fn
         self.order.append(fn)
@@ -357,6 +400,7 @@ class K:
 class FnTr:
     def __init__(self, unit, modkey, src, coqname, outer=None):
         self.u, self.modkey, self.src = unit, modkey, src
+        self.impkey = 'circuit' if modkey == 'block' else modkey      # module whose imports are in scope
         self.fn = Fn(src.name, coqname)
         self.outer = outer          # FnTr of the enclosing method (closure)
         self.tmp = 0
@@ -396,7 +440,7 @@ class FnTr:
         table = [
             (rf'{lab}', 'label'), (seq, 'labels'), (rf'tp\.Optional\[{seq}\]', 'optlabels'),
             (rf'set\[{lab}\]', 'labelset'), (rf'tp\.Optional\[set\[{lab}\]\]', 'optlabelset'),
-            (r'(gate\.)?GateType', 'gtype'), (r'(gate\.)?Gate', 'gate'), (r'Block', 'block'), (r'Circuit', 'circuit'),
+            (r'int', 'int'), (r'(gate\.)?GateType', 'gtype'), (r'(gate\.)?Gate', 'gate'), (r'Block', 'block'), (r'Circuit', 'circuit'),
         ]
         for rx, ty in table:
             if re.fullmatch(rx, s):
@@ -425,12 +469,16 @@ class FnTr:
             self.self_writable = self.outer.self_writable
             env[self.outer.self_py] = Var(self.self_code, 'circuit', 'self' if self.self_writable else 'circ')
             self.self_py = self.outer.self_py
-        elif self.modkey == 'circuit':
+        elif self.modkey in ('circuit', 'block'):
             if not args or args[0].arg != 'self':
                 fail(f, 'method without self')
             fn.self_kind = 'method'
             self.self_code, self.self_writable, self.self_py = 'self', True, 'self'
-            env['self'] = Var('self', 'circuit', 'self')
+            if self.modkey == 'block':
+                fn.state_ty = 'block'
+                env['self'] = Var('self', 'block', 'bself', {'blocks.content'})
+            else:
+                env['self'] = Var('self', 'circuit', 'self')
             args, defaults = args[1:], defaults[1:]
         if a.kwarg is not None:
             fn.has_kwarg = True
@@ -467,7 +515,7 @@ class FnTr:
     def binders(self):
         out = []
         if self.fn.self_kind in ('method', 'closure'):
-            out.append(f'({self.self_code} : circuit)')
+            out.append(f'({self.self_code} : {self.fn.state_ty})')
         for p, ty, _d, needs_label in self.fn.params:
             code = 'v_' + p
             if needs_label:
@@ -485,12 +533,17 @@ class FnTr:
                     and not self.u.circuit_methods[f.attr].decorator_list:
                 return ('method', self.u.get('circuit', f.attr, call), f.value)
             return None
+        if isinstance(f, ast.Attribute) and isinstance(f.value, ast.Name) and f.value.id in env \
+                and env[f.value.id].ty == 'block':
+            if self.u.block_methods.get(f.attr) is not None and not self.u.block_methods[f.attr].decorator_list:
+                return ('bmethod', self.u.get('block', f.attr, call), f.value)
+            return None
         if isinstance(f, ast.Name):
             if f.id in env:
                 if env[f.id].kind == 'fn':
                     return ('closure', env[f.id].fn)
                 return None
-            imp = self.u.imports[self.modkey].get(f.id)
+            imp = self.u.imports[self.impkey].get(f.id)
             if imp == ('cirbo.core.circuit.validation', f.id) and f.id in self.u.funcs['validation']:
                 return ('func', self.u.get('validation', f.id, call))
             if imp == ('cirbo.core.circuit.utils', f.id) and f.id in self.u.funcs['utils']:
@@ -564,9 +617,24 @@ class FnTr:
         fns = {}
         for s in stmts:
             visit(s, fns)
-        # a local that aliases part of the state: mutation through it is a mutation of the state
+        # a local that aliases part of the state: mutation through it is a mutation of the state; so is (conservatively)
+        # mutation through a name that is only bound inside these statements
+        assigned = {t.id for st in stmts for n in ast.walk(st) if isinstance(n, (ast.Assign, ast.AnnAssign))
+                    for t in (n.targets if isinstance(n, ast.Assign) else [n.target]) if isinstance(t, ast.Name)}
+        for st in stmts:
+            for n in ast.walk(st):
+                tgts = n.targets if isinstance(n, (ast.Assign, ast.Delete)) else []
+                for t in tgts:
+                    if isinstance(t, ast.Subscript):
+                        r = root(t)
+                        if r is not None and (r not in env or r in assigned) and self.self_writable:
+                            out.add(selfname)
+                if isinstance(n, ast.Call) and isinstance(n.func, ast.Attribute) and isinstance(n.func.value, ast.Name) \
+                        and n.func.value.id not in env and self.u.block_methods.get(n.func.attr) is not None \
+                        and self.self_writable:
+                    out.add(selfname)
         for name in list(out):
-            if name in env and env[name].kind == 'local' and env[name].alias - {'param'}:
+            if name in env and env[name].kind in ('local', 'ref') and env[name].alias - {'param'}:
                 out.add(selfname)
         return out
 
@@ -645,6 +713,15 @@ class FnTr:
                 if vt == 'block':
                     return Val(t, 'block', {'blocks.content'}, k)
                 return Val(t, 'labels', {'users.content'})
+            if base.ty == 'labels':
+                if pre is None:
+                    fail(node, 'list subscript (may raise IndexError) in a pure context')
+                i = self.expr(node.slice, env, pre)
+                if i.ty not in ('nat', 'int'):
+                    fail(node, 'list index must be an integer')
+                t = self.fresh()
+                pre.append((t, f'{"nth_res" if i.ty == "nat" else "list_index"} {self.atom(base)} {self.atom(i)}'))
+                return Val(t, 'label')
             fail(node, 'subscript outside grammar')
         if isinstance(node, ast.Compare):
             return self.compare(node, env, pre)
@@ -683,7 +760,7 @@ class FnTr:
 
     def attribute(self, node, env, pre):
         # gate.<TYPE>
-        if isinstance(node.value, ast.Name) and node.value.id == 'gate' and 'gate' not in env and self.modkey == 'circuit':
+        if isinstance(node.value, ast.Name) and node.value.id == 'gate' and 'gate' not in env and self.impkey == 'circuit':
             if node.attr in self.u.gtypes:
                 return Val(node.attr, 'gtype')
             fail(node, 'unknown attribute of the gate module')
@@ -729,6 +806,15 @@ class FnTr:
             return Val(code if isinstance(op, ast.In) else f'negb ({code})', 'bool')
         l = self.expr(ln, env, pre)
         r = self.expr(rn, env, pre)
+        if {l.ty, r.ty} <= {'nat', 'int'} and 'int' in (l.ty, r.ty):
+            # a Python int against a length: compare in Z
+            la = self.atom(l) if l.ty == 'int' else f'(Z.of_nat {self.atom(l)})'
+            ra = self.atom(r) if r.ty == 'int' else f'(Z.of_nat {self.atom(r)})'
+            zop = {ast.Eq: f'Z.eqb {la} {ra}', ast.NotEq: f'negb (Z.eqb {la} {ra})', ast.Gt: f'Z.ltb {ra} {la}',
+                   ast.GtE: f'Z.leb {ra} {la}', ast.Lt: f'Z.ltb {la} {ra}', ast.LtE: f'Z.leb {la} {ra}'}.get(type(op))
+            if zop is None:
+                fail(node, 'comparison outside grammar')
+            return Val(zop, 'bool')
         if l.ty != r.ty:
             fail(node, f'comparison of {l.ty} with {r.ty}')
         la, ra = self.atom(l), self.atom(r)
@@ -774,7 +860,11 @@ class FnTr:
         if len(node.generators) != 1:
             fail(node, 'comprehension with several generators')
         g = node.generators[0]
-        if g.is_async or not isinstance(g.target, ast.Name):
+        if g.is_async:
+            fail(node, 'comprehension target')
+        if isinstance(g.target, ast.Tuple):
+            return self.enum_comprehension(node, g, env, pre)
+        if not isinstance(g.target, ast.Name):
             fail(node, 'comprehension target')
         it = self.expr(g.iter, env, pre)
         if it.ty != 'labels':
@@ -798,10 +888,42 @@ class FnTr:
             code = f'(map (fun {xc} => {e.code}) {code})'
         return Val(code, 'labels')        # a fresh list
 
+    def enumerate_arg(self, it, env):
+        ok = (isinstance(it, ast.Call) and isinstance(it.func, ast.Name) and it.func.id == 'enumerate'
+              and 'enumerate' not in env and 'enumerate' not in self.u.imports[self.impkey]
+              and len(it.args) == 1 and not it.keywords)
+        return it.args[0] if ok else None
+
+    def enum_comprehension(self, node, g, env, pre):
+        """[e for i, x in enumerate(xs) if c]  ->  map (fun p => e) (filter (fun p => c) (enumerate xs))"""
+        arg = self.enumerate_arg(g.iter, env)
+        tg = g.target
+        if arg is None or len(tg.elts) != 2 or not all(isinstance(e, ast.Name) for e in tg.elts) \
+                or tg.elts[0].id == tg.elts[1].id:
+            fail(node, 'comprehension with a tuple target must be `for i, x in enumerate(xs)`')
+        xs = self.typed_val(arg, env, pre, 'labels')
+        i, x = tg.elts[0].id, tg.elts[1].id
+        if i in env or x in env:
+            fail(node, 'comprehension variable shadows a name')
+        pc = f'p_{i}_{x}'
+        inner = dict(env)
+        inner[i] = Var(f'(fst {pc})', 'nat', 'local')
+        inner[x] = Var(f'(snd {pc})', 'label', 'local')
+        code = f'(enumerate {self.atom(xs)})'
+        for c in g.ifs:
+            cv = self.pure(c, inner, 'comprehension filter')
+            if cv.ty != 'bool':
+                fail(c, 'comprehension filter must be a bool')
+            code = f'(filter (fun {pc} => {cv.code}) {code})'
+        e = self.pure(node.elt, inner, 'comprehension element')
+        if e.ty not in ('nat', 'label'):
+            fail(node, 'comprehension element must be an index or a label')
+        return Val(f'(map (fun {pc} => {e.code}) {code})', 'nats' if e.ty == 'nat' else 'labels')
+
     def call(self, node, env, pre):
         f = node.func
         # builtins (not shadowed)
-        if isinstance(f, ast.Name) and f.id not in env and f.id not in self.u.imports[self.modkey]:
+        if isinstance(f, ast.Name) and f.id not in env and f.id not in self.u.imports[self.impkey]:
             if f.id == 'len' and len(node.args) == 1 and not node.keywords:
                 v = self.expr(node.args[0], env, pre)
                 if v.ty not in ('labels',):
@@ -821,6 +943,18 @@ class FnTr:
                         return Val(v.code, v.ty, {'blocks.content'} if v.ty == 'blockpairs' else ())
                 fail(node, f'{f.id}(...) outside grammar')
             fail(node, 'call of an unknown function')
+        # l.index(x)
+        if isinstance(f, ast.Attribute) and f.attr == 'index' and len(node.args) == 1 and not node.keywords \
+                and not (isinstance(f.value, ast.Name) and f.value.id in env and env[f.value.id].ty == 'circuit'):
+            l = self.expr(f.value, env, pre)
+            if l.ty != 'labels':
+                fail(node, 'index() of a non-list')
+            if pre is None:
+                fail(node, 'index() (may raise ValueError) in a pure context')
+            x = self.typed(node.args[0], env, pre, 'label')
+            t = self.fresh()
+            pre.append((t, f'list_index_of {x} {self.atom(l)}'))
+            return Val(t, 'nat')
         # d.values()
         if isinstance(f, ast.Attribute) and f.attr == 'values' and not node.args and not node.keywords:
             d = self.expr(f.value, env, pre)
@@ -829,7 +963,7 @@ class FnTr:
             fail(node, 'values() of a non-dict')
         # gate.Gate(...)
         if isinstance(f, ast.Attribute) and isinstance(f.value, ast.Name) and f.value.id == 'gate' \
-                and 'gate' not in env and f.attr == 'Gate' and self.modkey == 'circuit':
+                and 'gate' not in env and f.attr == 'Gate' and self.impkey == 'circuit':
             kws = [k for k in node.keywords if k.arg is not None]
             stars = [k for k in node.keywords if k.arg is None]
             if kws or len(stars) > 1 or not 2 <= len(node.args) <= 3:
@@ -842,7 +976,7 @@ class FnTr:
             return Val(f'(mkGate {t} {ops})', 'gate', (), lab)
         # Block(name=..., owner=self, inputs=..., gates=..., outputs=...)
         if isinstance(f, ast.Name) and f.id == 'Block' and 'Block' not in env \
-                and self.u.imports[self.modkey].get('Block') == ('<local>', 'Block'):
+                and self.u.imports[self.impkey].get('Block') == ('<local>', 'Block'):
             names = self.u.block_init
             given = {}
             if len(node.args) > len(names):
@@ -941,8 +1075,8 @@ class FnTr:
                 lab = v.label
             codes[p] = (lab, code)
         parts = [callee.coqname]
-        if kind in ('method', 'closure'):
-            parts.append(self.self_code if kind == 'closure' else env[c[2].id].code)
+        if kind in ('method', 'closure', 'bmethod'):
+            parts.append(self.self_code if kind == 'closure' else self.atom(Val(env[c[2].id].code, 'x')))
         arglist = []
         for p, ty, d, _nl in params:
             if p in codes:
@@ -962,7 +1096,7 @@ class FnTr:
     def carried(self, names, env):
         """ordered Python names of the variables a loop / join threads (the state first)"""
         names = [n for n in names if n in env and env[n].kind != 'fn']
-        return sorted(names, key=lambda n: (env[n].kind not in ('self', 'circ'), n))
+        return sorted(names, key=lambda n: (env[n].kind not in ('self', 'bself', 'circ'), n))
 
     def stmts(self, body, env, k):
         if not body:
@@ -993,6 +1127,8 @@ class FnTr:
             return self.for_(s, env, kr)
         if isinstance(s, ast.FunctionDef):
             return self.closure(s, env, kr)
+        if isinstance(s, ast.Assign) and rest and self.is_move(s, rest[0], env):
+            return self.move(s, env, kr)
         if isinstance(s, (ast.Assign, ast.AnnAssign)):
             return self.assign(s, env, kr)
         if isinstance(s, ast.Delete):
@@ -1007,7 +1143,7 @@ class FnTr:
         e = s.exc.func if isinstance(s.exc, ast.Call) else s.exc
         if not isinstance(e, ast.Name) or e.id not in self.u.errs:
             fail(s, 'raise of something that is not a modelled exception class')
-        imp = self.u.imports[self.modkey].get(e.id)
+        imp = self.u.imports[self.impkey].get(e.id)
         if imp != ('cirbo.core.circuit.exceptions', e.id):
             fail(s, f'{e.id} is not imported from cirbo.core.circuit.exceptions')
         return f'Err {e.id}'
@@ -1029,7 +1165,7 @@ class FnTr:
         if v is None or (isinstance(v, ast.Constant) and v.value is None):
             self.returns.append(('none', None))
             return self.final(env)
-        if isinstance(v, ast.Name) and v.id in env and env[v.id].kind == 'self':
+        if isinstance(v, ast.Name) and v.id in env and env[v.id].kind in ('self', 'bself'):
             self.returns.append(('self', None))
             if not self.fn.mutates:
                 # returning an unmodified self: still a circuit-valued method
@@ -1120,11 +1256,17 @@ class FnTr:
 
     def iterable(self, node, env, pre):
         v = self.expr(node, env, pre)
-        if v.ty not in ('labels', 'gatepairs', 'blockpairs'):
+        if v.ty not in ('labels', 'nats', 'gatepairs', 'blockpairs'):
             fail(node, f'loop over {v.ty}')
         return v
 
     def for_(self, s, env, kr):
+        if not s.orelse and isinstance(s.target, ast.Tuple):
+            return self.enum_update(s, env, kr)
+        if not s.orelse and isinstance(s.target, ast.Name):
+            r = self.values_update(s, env, kr)
+            if r is not None:
+                return r
         if s.orelse or not isinstance(s.target, ast.Name):
             fail(s, 'loop form outside grammar')
         for n in ast.walk(s):
@@ -1136,7 +1278,7 @@ class FnTr:
         pre = []
         it = self.iterable(s.iter, env, pre)
         xc = self.vname(s.target, x)
-        if it.ty != 'labels':
+        if it.ty in PAIR_ELEM:
             xc = 'kv_' + x          # a (key, value) pair of the dict
         names = self.carried(self.modset(s.body, env), env)
         for n in names:
@@ -1147,6 +1289,8 @@ class FnTr:
             e = dict(env)
             if it.ty == 'labels':
                 e[x] = Var(xc, 'label', 'local')
+            elif it.ty == 'nats':
+                e[x] = Var(xc, 'nat', 'local')
             else:
                 ety = PAIR_ELEM[it.ty]
                 e[x] = Var(f'(snd {xc})', ety, 'local', {'blocks.content'} if ety == 'block' else (), f'(fst {xc})')
@@ -1174,6 +1318,137 @@ class FnTr:
         pat = pat_of([env[n].code for n in names])
         loop = '\n'.join([f'foldM (fun {binder} {xc} =>', ind(body, 4) + ')', f'  {self.atom(it)} {init}'])
         return '\n'.join(self.emit_pre(pre) + [f'do {pat} <-', ind(loop) + ';', kr.emit(env)])
+
+    # ---- recognised in-place idioms
+    def list_place(self, node, env):
+        """a list that may be updated in place -> (current value code, function new value -> binding line, component)"""
+        if isinstance(node, ast.Attribute) and isinstance(node.value, ast.Name) and node.value.id in env:
+            v = env[node.value.id]
+            if v.kind == 'bself' and node.attr in BLOCK_PROJ:
+                sc = v.code
+                cur = f'({BLOCK_PROJ[node.attr]} {sc})'
+
+                def setter(new, attr=node.attr):
+                    parts = [new if a == attr else f'({BLOCK_PROJ[a]} {sc})' for a in ('inputs', 'gates', 'outputs')]
+                    return f'let {sc} := mkBlock {" ".join(parts)} in'
+                return cur, setter, 'blocks.content'
+            if v.kind == 'self':
+                attr = CIRCUIT_PROPS.get(node.attr, node.attr)
+                if attr in FIELDS and FIELDS[attr][2] == 'labels':
+                    proj, _setter, _ty, comp = FIELDS[attr]
+                    return f'({proj} {v.code})', (lambda new, attr=attr: self.set_field(env, attr, new)), comp
+        if isinstance(node, ast.Name) and node.id in env and env[node.id].kind == 'mutlocal' and env[node.id].ty == 'labels':
+            c = env[node.id].code
+            return c, (lambda new: f'let {c} := {new} in'), None
+        return None
+
+    def enum_update(self, s, env, kr):
+        """for i, x in enumerate(L): if <cond over x>: L[i] = <e>      (L updatable in place)
+           Each store hits the position the iterator has just yielded, so positions still to come are read
+           unchanged: the loop is  L := map (fun x => if cond then e else x) L."""
+        arg = self.enumerate_arg(s.iter, env)
+        tg = s.target
+        if arg is None or len(tg.elts) != 2 or not all(isinstance(e, ast.Name) for e in tg.elts):
+            fail(s, 'loop with a tuple target must be `for i, x in enumerate(L)`')
+        i, x = tg.elts[0].id, tg.elts[1].id
+        if i == x or i in env or x in env:
+            fail(s, 'loop variables shadow a name')
+        pl = self.list_place(arg, env)
+        if pl is None:
+            fail(s, 'enumerate-update loop over something that is not updatable in place')
+        cur, setter, comp = pl
+        ok = (len(s.body) == 1 and isinstance(s.body[0], ast.If) and not s.body[0].orelse
+              and len(s.body[0].body) == 1 and isinstance(s.body[0].body[0], ast.Assign))
+        if not ok:
+            fail(s, 'enumerate-update loop body must be `if <cond>: L[i] = <e>`')
+        test, st = s.body[0].test, s.body[0].body[0]
+        ok = (len(st.targets) == 1 and isinstance(st.targets[0], ast.Subscript)
+              and ast.dump(st.targets[0].value) == ast.dump(arg)
+              and isinstance(st.targets[0].slice, ast.Name) and st.targets[0].slice.id == i)
+        if not ok:
+            fail(st, 'enumerate-update loop must store into L[i]')
+        for e in (test, st.value):
+            for n in ast.walk(e):
+                if not isinstance(n, (ast.Name, ast.Compare, ast.BoolOp, ast.UnaryOp, ast.Load, ast.Eq, ast.NotEq, ast.And,
+                                      ast.Or, ast.Not, ast.Constant)):
+                    fail(e, 'enumerate-update loop: condition / value must be built from names and comparisons only')
+                if isinstance(n, ast.Name) and (n.id == i or (isinstance(arg, ast.Name) and n.id == arg.id)):
+                    fail(e, 'enumerate-update loop: condition / value may not mention the index or the list')
+        inner = dict(env)
+        xc = self.vname(tg.elts[1], x)
+        inner[x] = Var(xc, 'label', 'local')
+        c = self.pure(test, inner, 'enumerate-update condition')
+        e = self.pure(st.value, inner, 'enumerate-update value')
+        if c.ty != 'bool' or e.ty != 'label':
+            fail(s, 'enumerate-update loop types')
+        if comp is not None:
+            self.effect(comp, env)
+        line = setter(f'(map (fun {xc} => if {c.code} then {e.code} else {xc}) {cur})')
+        return '\n'.join([line, kr.emit(env)])
+
+    def values_update(self, s, env, kr):
+        """for b in self.blocks.values(): b.<Block mutator>(args)   ->  the dict with every value updated
+           (the dict structure is not touched; every Block is a separate object)"""
+        it = s.iter
+        ok = (isinstance(it, ast.Call) and isinstance(it.func, ast.Attribute) and it.func.attr == 'values'
+              and not it.args and not it.keywords and len(s.body) == 1 and isinstance(s.body[0], ast.Expr)
+              and isinstance(s.body[0].value, ast.Call) and isinstance(s.body[0].value.func, ast.Attribute)
+              and isinstance(s.body[0].value.func.value, ast.Name) and s.body[0].value.func.value.id == s.target.id)
+        if not ok:
+            return None
+        call = s.body[0].value
+        x = s.target.id
+        if x in env:
+            fail(s, f'loop variable {x} shadows a name')
+        pre = []
+        d = self.expr(it.func.value, env, pre)
+        if d.ty != 'blockdict' or pre or not self.self_writable or env[self.self_py].kind != 'self':
+            return None
+        kv = 'kv_' + x
+        inner = dict(env)
+        inner[x] = Var(f'(snd {kv})', 'block', 'local', {'blocks.content'}, f'(fst {kv})')
+        c = self.callee_of(call, inner)
+        if c is None or c[0] != 'bmethod' or not c[1].mutates or c[1].ret_ty != 'unit':
+            fail(s, 'loop over dict values must call a translated Block mutator on each value')
+        for a in list(call.args) + [k.value for k in call.keywords]:
+            for n in ast.walk(a):
+                if isinstance(n, ast.Name) and n.id == x:
+                    fail(s, 'arguments may not mention the loop variable')
+        apre = []
+        code, callee = self.call_code(c, call, inner, apre)
+        if apre:
+            fail(s, 'arguments of the Block mutator must be pure')
+        self.effect('blocks.content', env)
+        t = self.fresh()
+        body = f'do b <- {code}; Ok (fst {kv}, b)' if callee.monadic else f'Ok (fst {kv}, {code})'
+        lines = [f'do {t} <- mapM (fun {kv} => {body}) {self.atom(d)};', self.set_field(env, '_blocks', t)]
+        return '\n'.join(lines + [kr.emit(env)])
+
+    # ---- self._gate_to_users[new] = self._gate_to_users[old]; del self._gate_to_users[old]
+    def users_item(self, node, env):
+        if isinstance(node, ast.Subscript) and isinstance(node.value, ast.Attribute) \
+                and isinstance(node.value.value, ast.Name) and node.value.value.id in env \
+                and env[node.value.value.id].kind == 'self' and node.value.attr == '_gate_to_users' \
+                and isinstance(node.slice, ast.Name) and node.slice.id in env and env[node.slice.id].ty == 'label':
+            return node.slice.id
+        return None
+
+    def is_move(self, s, nxt, env):
+        if len(s.targets) != 1 or not isinstance(nxt, ast.Delete) or len(nxt.targets) != 1:
+            return False
+        dst, src, dele = self.users_item(s.targets[0], env), self.users_item(s.value, env), self.users_item(nxt.targets[0], env)
+        return dst is not None and src is not None and dele == src
+
+    def move(self, s, env, kr):
+        """the users list is stored under a second key and the first key is deleted by the NEXT statement: the list
+        object changes owner, no alias survives"""
+        dst, src = self.users_item(s.targets[0], env), self.users_item(s.value, env)
+        kd, ks = self.lookup(s.targets[0].slice, env).code, self.lookup(s.value.slice, env).code
+        sc = env[self.self_py].code
+        t = self.fresh()
+        self.effect('users', env)
+        lines = [f'do {t} <- dget_res (users {sc}) {ks};', self.set_field(env, '_gate_to_users', f'(dset (users {sc}) {kd} {t})')]
+        return '\n'.join(lines + [kr.emit(env)])
 
     def closure(self, s, env, kr):
         if s.name in env:
@@ -1240,8 +1515,11 @@ class FnTr:
         pre = []
         if isinstance(tgt, ast.Name):
             name = tgt.id
-            if name in env and env[name].kind in ('self', 'circ', 'fn'):
+            if name in env and env[name].kind in ('self', 'bself', 'circ', 'fn'):
                 fail(s, 'assignment to the state variable')
+            if name in env and env[name].ty in ('label', 'gate', 'block', 'gtype', 'nat', 'int', 'bool'):
+                # statically resolved labels of Gate / Block values and item references mention such names
+                fail(s, f'rebinding of the scalar name {name}')
             if isinstance(val, ast.Call):
                 c = self.callee_of(val, env)
                 if c is not None and c[1].mutates:
@@ -1250,22 +1528,58 @@ class FnTr:
             if v.ty in ('circuit', 'unit'):
                 fail(s, 'assignment of a circuit')
             code = self.vname(tgt, name)
+            key = self.users_item(val, env)
+            if key is not None and self.self_writable:
+                # a live reference to self._gate_to_users[key]: item assignment through it updates the state
+                env2 = dict(env)
+                var = Var(code, 'labels', 'ref', {'users', 'users.content'})
+                var.ref = ('_gate_to_users', key, env[key])
+                env2[name] = var
+                return '\n'.join(self.emit_pre(pre) + [f'let {code} := {v.code} in', kr.emit(env2)])
             fresh = v.ty in ('labels', 'labelset') and not v.alias and self.is_fresh_list(val, env)
             kind = 'mutlocal' if fresh and v.ty == 'labels' else 'local'
             env2 = dict(env)
             env2[name] = Var(code, v.ty, kind, v.alias, v.label)
             line = f'let {code} := {v.code} in'
             return '\n'.join(self.emit_pre(pre) + [line, kr.emit(env2)])
+        if isinstance(tgt, ast.Subscript) and isinstance(tgt.value, ast.Name) and tgt.value.id in env \
+                and env[tgt.value.id].kind == 'ref':
+            var = self.lookup(tgt.value, env)
+            attr, keyname, keyvar = var.ref
+            if env.get(keyname) is not keyvar:
+                fail(s, 'the key of the referenced item has been rebound')
+            v = self.typed(val, env, pre, 'label')
+            i = self.expr(tgt.slice, env, pre)
+            if i.ty != 'nat':
+                fail(s, 'list index must be a non-negative integer (a length or an index() result)')
+            t = self.fresh()
+            pre.append((t, f'list_set {var.code} {self.atom(i)} {v}'))
+            self.effect('users.content', env)
+            sc = env[self.self_py].code
+            proj = FIELDS[attr][0]
+            return '\n'.join(self.emit_pre(pre)
+                             + [self.set_field(env, attr, f'(dset ({proj} {sc}) {keyvar.code} {t})'), kr.emit(env)])
         pl = self.place(tgt, env)
+        if pl[0] == 'item' and FIELDS[pl[1]][2] == 'labels':
+            attr = pl[1]
+            proj, _setter, _ty, comp = FIELDS[attr]
+            v = self.typed(val, env, pre, 'label')
+            i = self.expr(pl[2], env, pre)
+            if i.ty != 'nat':
+                fail(s, 'list index must be a non-negative integer (a length or an index() result)')
+            t = self.fresh()
+            sc = env[self.self_py].code
+            pre.append((t, f'list_set ({proj} {sc}) {self.atom(i)} {v}'))
+            self.effect(comp, env)
+            return '\n'.join(self.emit_pre(pre) + [self.set_field(env, attr, t), kr.emit(env)])
         if pl[0] == 'field':
             attr = pl[1]
             _proj, _setter, ty, comp = FIELDS[attr]
             if ty != 'labels':
                 fail(s, 'only the inputs / outputs lists may be rebound')
             v = self.typed_val(val, env, pre, 'labels')
-            if v.alias or not self.is_fresh_list(val, env):
-                fail(s, 'only a fresh list may be stored into the state')
             self.effect(comp, env)
+            env = self.store_check(s, val, v, env, comp)
             return '\n'.join(self.emit_pre(pre) + [self.set_field(env, attr, self.atom(v)), kr.emit(env)])
         if pl[0] == 'item':
             attr, knode = pl[1], pl[2]
@@ -1283,13 +1597,25 @@ class FnTr:
                     fail(s, f'the key must syntactically be the label / name of the stored {want}')
                 if want == 'block' and v.alias:
                     fail(s, 'only a new Block may be stored')
-            elif v.alias or not self.is_fresh_list(val, env):
-                fail(s, 'only a fresh list may be stored into the state')
             self.effect(comp, env)
+            if want == 'labels':
+                env = self.store_check(s, val, v, env, 'users.content')
             sc = env[self.self_py].code
             return '\n'.join(self.emit_pre(pre)
                              + [self.set_field(env, attr, f'(dset ({proj} {sc}) {k} {self.atom(v)})'), kr.emit(env)])
         fail(s, 'assignment target outside grammar')
+
+    def store_check(self, s, val, v, env, comp):
+        """only a fresh list may be stored into the state: a new-list expression, or a mutable local (which then
+        becomes a read-only view of that component: the state owns the list from here on)"""
+        if isinstance(val, ast.Name) and val.id in env and env[val.id].kind == 'mutlocal' and not v.alias:
+            env = dict(env)
+            old = env[val.id]
+            env[val.id] = Var(old.code, old.ty, 'local', {comp})
+            return env
+        if v.alias or not self.is_fresh_list(val, env):
+            fail(s, 'only a fresh list may be stored into the state')
+        return env
 
     def delete(self, s, env, kr):
         if len(s.targets) != 1:
@@ -1311,7 +1637,7 @@ class FnTr:
         f = call.func
         # logger.<level>(...): no effect on the modelled state (its arguments must still be in the grammar)
         if isinstance(f, ast.Attribute) and isinstance(f.value, ast.Name) and f.value.id == 'logger' \
-                and 'logger' not in env and f.attr in LOG_LEVELS and self.modkey == 'circuit':
+                and 'logger' not in env and f.attr in LOG_LEVELS and self.impkey == 'circuit':
             for a in call.args:
                 if not isinstance(a, (ast.JoinedStr, ast.Constant)):
                     fail(call, 'logger argument outside grammar')
@@ -1339,7 +1665,8 @@ class FnTr:
             self.effects_of_call(callee, env)
             sc = env[self.self_py].code
             pat = sc if callee.ret_ty == 'unit' else f"({sc}, _)"
-            line = f'do {pat} <- {code};' if callee.monadic else f'let {pat} := {code} in'
+            pat_q = pat if callee.ret_ty == 'unit' else "'" + pat
+            line = f'do {pat} <- {code};' if callee.monadic else f"let {pat_q} := {code} in"
         else:
             if not callee.monadic:
                 fail(call, 'statement without effect')
